@@ -60,6 +60,14 @@ trait Dom: Sized + 'static {
     type A: 'static;
     const NAME: &'static str;
     const HAS_EQ: bool;
+    /// size in bytes of one element of the owned value (`u8` for strings)
+    const ELEM: usize;
+    /// the element type's `Clone` can be made to panic (stream C only): arm it so that the `k`-th element clone
+    /// from now on panics / disarm it (returns whether it was still armed, i.e. did not fire)
+    fn arm_panic(_k: usize) {}
+    fn disarm_panic() -> bool {
+        true
+    }
     fn c_bytes(c: &Self::C) -> Vec<u8>;
     fn o_bytes(o: &Self::O) -> Vec<u8>;
     fn c_ptr(c: &Self::C) -> usize;
@@ -105,6 +113,8 @@ struct Case<'o, D: Dom> {
     exp: Vec<Option<Vec<u8>>>,
     kinds: Vec<K>,
     cloned: Vec<bool>,
+    /// which of the harness's arcs a Shared value points to (the harness's own bookkeeping, for the count oracle)
+    arc_of: Vec<Option<usize>>,
     arcs: Vec<Option<D::A>>,
     arc_built: Vec<Vec<u8>>,
     counting: bool,
@@ -130,6 +140,7 @@ impl<'o, D: Dom> Case<'o, D> {
             exp: vec![],
             kinds: vec![],
             cloned: vec![],
+            arc_of: vec![],
             arcs: vec![],
             arc_built: vec![],
             counting: true,
@@ -180,6 +191,32 @@ impl<'o, D: Dom> Case<'o, D> {
     fn after_op(&mut self) {
         if self.check_faults() {
             return;
+        }
+        // every Arc reference taken is given back exactly once, at every step: the strong count of an Arc the
+        // harness still holds is its own reference plus one per live Shared value made from it
+        for (a, arc) in self.arcs.iter().enumerate() {
+            if let Some(arc) = arc {
+                let holders =
+                    (0..self.vals.len()).filter(|h| self.vals[*h].is_some() && self.arc_of[*h] == Some(a)).count();
+                let sc = D::a_strong(arc);
+                if sc != 1 + holders && !self.reported.contains(&(2000 + a)) {
+                    self.reported.push(2000 + a);
+                    let d = format!(
+                        "a{}: strong count {} with {} live value(s) made from it plus the caller's own reference (expected {}): {}",
+                        a,
+                        sc,
+                        holders,
+                        1 + holders,
+                        if sc > 1 + holders { "a reference was not given back" } else { "a reference was given back twice" }
+                    );
+                    self.out.oracle_fail("Arc reference not given back", &d);
+                    // a wrong count means the block is (or will be) freed under a live holder, or never: nothing
+                    // made from it can be used or dropped safely any more
+                    self.dead = true;
+                    self.abandon();
+                    return;
+                }
+            }
         }
         // a value whose bytes differ from the record is reported once; Hash/Ord/Display are only consulted
         // while every value reads correctly (they would walk bytes that may no longer be UTF-8)
@@ -285,6 +322,9 @@ impl<'o, D: Dom> Case<'o, D> {
         self.exp.push(Some(built));
         self.kinds.push(kind);
         self.cloned.push(false);
+        if self.arc_of.len() <= k {
+            self.arc_of.push(None);
+        }
         self.emit(op, ans);
         k
     }
@@ -299,6 +339,8 @@ impl<'o, D: Dom> Case<'o, D> {
         };
         self.out.count("op:shared");
         let built = self.arc_built[a].clone();
+        // recorded before the op is emitted: the oracles of `emit` already count this holder
+        self.arc_of.push(Some(a));
         self.push(format!("cow shared {}", a), V::C(c), built, K::Sh)
     }
 
@@ -313,11 +355,18 @@ impl<'o, D: Dom> Case<'o, D> {
         if self.dead {
             return 0;
         }
-        let (new, p, len) = {
+        let new = {
             let src = self.vals[h].as_ref().expect("live handle");
-            let new = alloc::track(|| f(src));
-            let p = ptr_of(&new) == ptr_of(src);
-            (new, p, bytes_of(src).len())
+            alloc::track(|| f(src))
+        };
+        self.bind_clone(h, new, "clone")
+    }
+
+    /// bind the result of a clone of `h` to the next handle; `opname` is `clone` or `cloneu`
+    fn bind_clone(&mut self, h: usize, new: V<D>, opname: &str) -> usize {
+        let (p, len) = {
+            let src = self.vals[h].as_ref().expect("live handle");
+            (ptr_of(&new) == ptr_of(src), bytes_of(src).len())
         };
         let sk = self.kinds[h];
         self.out.count("op:clone");
@@ -334,13 +383,48 @@ impl<'o, D: Dom> Case<'o, D> {
         let k = self.vals.len();
         let ans = format!("h{} {} p={}", k, hex(&bytes_of(&new)), if p { 1 } else { 0 });
         let built = self.exp[h].clone().unwrap();
+        let arc = if matches!(new, V::C(_)) { self.arc_of[h] } else { None };
         self.vals.push(Some(new));
         self.exp.push(Some(built));
         self.kinds.push(nk);
         // a clone of a cloned-and-interesting value is interesting in its own right
         self.cloned.push(false);
-        self.emit(format!("cow clone {}", h), ans);
+        self.arc_of.push(arc);
+        self.emit(format!("cow {} {}", opname, h), ans);
         k
+    }
+
+    /// `clone` of a copy-on-write value while the element type's `Clone` is armed to panic at its `k`-th call;
+    /// the panic is caught here, as a caller could
+    fn clone_unwind(&mut self, h: usize, k: usize) {
+        if self.dead {
+            return;
+        }
+        let res = {
+            let src = match self.vals[h].as_ref() {
+                Some(V::C(c)) => c,
+                _ => panic!("harness: cloneu on a plain or dead handle"),
+            };
+            D::arm_panic(k);
+            let r = catch_unwind(AssertUnwindSafe(|| alloc::track(|| D::c_clone(src))));
+            D::disarm_panic();
+            r
+        };
+        self.out.count("op:cloneu");
+        match res {
+            Err(_) => {
+                self.out.count(&format!("clone unwound of:{}", self.kinds[h].name()));
+                self.out.nontrivial();
+                self.emit(format!("cow cloneu {}", h), "unwound".to_string());
+            }
+            // only the Owned arm runs `Clone` of the elements; elsewhere the armed panic cannot fire and the
+            // model's `cloneUnwind` is the ordinary clone.  An Owned source whose copy did not reach the armed
+            // element (no elements) is an ordinary clone as well
+            Ok(new) => {
+                let opname = if self.kinds[h] == K::Ow { "clone" } else { "cloneu" };
+                self.bind_clone(h, V::C(new), opname);
+            }
+        }
     }
 
     fn deref(&mut self, h: usize) {
@@ -371,11 +455,39 @@ impl<'o, D: Dom> Case<'o, D> {
         };
         let built = self.exp[h].take().unwrap();
         let o = alloc::track(move || D::into_owned(c));
+        self.bind_owned(h, o, built, "intoowned")
+    }
+
+    fn bind_owned(&mut self, h: usize, o: D::O, built: Vec<u8>, opname: &str) -> usize {
         let cap = D::o_cap(&o);
         self.out.count("op:intoowned");
         self.out.count(&format!("intoowned of:{}", self.kinds[h].name()));
         if self.cloned[h] {
             self.out.nontrivial();
+        }
+        // the String / Vec handed to the caller must own a block of exactly `capacity` elements: a larger claim
+        // lets safe code (push, extend) write outside the block, and frees it with a layout it never had
+        if cap > 0 && D::ELEM > 0 {
+            let real = alloc::block_size(D::o_ptr(&o));
+            if real != Some(cap * D::ELEM) {
+                let d = format!(
+                    "into_owned of h{} ({}) returned a value of length {} claiming capacity {} ({} bytes), but {}",
+                    h,
+                    self.kinds[h].name(),
+                    D::o_bytes(&o).len(),
+                    cap,
+                    cap * D::ELEM,
+                    match real {
+                        Some(sz) => format!("the block it points to was allocated with {} bytes", sz),
+                        None => "it does not point to the start of a live allocation".to_string(),
+                    }
+                );
+                self.out.oracle_fail("owned value claims a capacity it never allocated", &d);
+                std::mem::forget(o);
+                self.dead = true;
+                self.abandon();
+                return 0;
+            }
         }
         let k = self.vals.len();
         let ans = format!("h{} {} cap={}", k, hex(&D::o_bytes(&o)), cap);
@@ -383,12 +495,44 @@ impl<'o, D: Dom> Case<'o, D> {
         self.exp.push(Some(built));
         self.kinds.push(K::Plain);
         self.cloned.push(false);
+        self.arc_of.push(None);
         // the op carries the REAL capacity of the returned String/Vec: for a Borrowed/Shared source it is the
         // standard library's choice for the fresh copy (`Arc<str>::to_string()` goes through `Display` and
         // gives max(8, len), `to_owned`/`to_vec` are exact); for an Owned source the model ignores it and
         // answers the capacity it stored at `owned`/`clone` time, which must be the real one
-        self.emit(format!("cow intoowned {} {}", h, cap), ans);
+        self.emit(format!("cow {} {} {}", opname, h, cap), ans);
         k
+    }
+
+    /// `into_owned` while the element type's `Clone` is armed to panic at its `k`-th call; the panic is caught
+    /// here, as a caller could.  The value is gone either way (it was moved into the call).
+    fn into_owned_unwind(&mut self, h: usize, k: usize) {
+        if self.dead {
+            return;
+        }
+        let c = match self.vals[h].take() {
+            Some(V::C(c)) => c,
+            _ => panic!("harness: intoownedu on a plain or dead handle"),
+        };
+        let built = self.exp[h].take().unwrap();
+        D::arm_panic(k);
+        let res = catch_unwind(AssertUnwindSafe(|| alloc::track(move || D::into_owned(c))));
+        D::disarm_panic();
+        self.out.count("op:intoownedu");
+        match res {
+            Err(_) => {
+                self.out.count(&format!("intoowned unwound of:{}", self.kinds[h].name()));
+                self.out.nontrivial();
+                self.emit(format!("cow intoownedu {} 0", h), "unwound".to_string());
+            }
+            // an Owned value is handed back as it is (`from_raw_parts`): no `Clone` runs, nothing can unwind, the
+            // model's `intoOwnedUnwind` is the ordinary `into_owned`.  A Borrowed / Shared value whose copy
+            // did not reach the armed element (no elements) is an ordinary `into_owned` as well
+            Ok(o) => {
+                let opname = if self.kinds[h] == K::Ow { "intoownedu" } else { "intoowned" };
+                self.bind_owned(h, o, built, opname);
+            }
+        }
     }
 
     fn drop_h(&mut self, h: usize, on_thread: bool) {
@@ -605,6 +749,7 @@ impl Dom for StrDom {
     type A = Arc<str>;
     const NAME: &'static str = "str";
     const HAS_EQ: bool = true;
+    const ELEM: usize = 1;
     fn c_bytes(c: &SharedString) -> Vec<u8> {
         let s: &str = c;
         s.as_bytes().to_vec()
@@ -712,6 +857,8 @@ fn a_borrowed(case: &mut Case<StrDom>, s: &'static str, route: usize) -> usize {
         return 0;
     }
     let c = alloc::track(|| match route {
+        // `Default`: `from_borrowed(<&str>::default())`
+        _ if s.is_empty() && route >= 2 => SharedString::default(),
         0 => SharedString::const_str(s),
         1 => SharedString::from_borrowed(s),
         2 => SharedString::from(s),
@@ -816,6 +963,7 @@ impl Dom for LabelDom {
     type A = ();
     const NAME: &'static str = "labels";
     const HAS_EQ: bool = false; // Key::eq compares names and ignores label order: not the slice's `==`
+    const ELEM: usize = std::mem::size_of::<Label>();
     fn c_bytes(c: &Key) -> Vec<u8> {
         c.labels().map(label_id).collect()
     }
@@ -1018,7 +1166,17 @@ fn b_extra(case: &mut Case<LabelDom>, pool: &Pool, h: usize, extra: &[u8]) -> us
             V::O(_) => panic!("harness: with_extra_labels on a plain Vec"),
         });
     }
-    case.deref(h);
+    // `with_extra_labels` starts with `self.labels.clone().into_owned()` and then `extend`s the result in place.
+    // That first step is run on its own beforehand (clone the key, take its labels, drop them), so that a clone
+    // which does not own what its capacity word claims is seen by the oracles BEFORE `extend` writes through it.
+    let probe = case.clone(h);
+    let probe = if case.dead { 0 } else { case.into_owned(probe) };
+    if !case.dead {
+        case.drop_h(probe, false);
+    }
+    if !case.dead {
+        case.deref(h);
+    }
     if case.dead {
         std::mem::forget(extras);
         return 0;
@@ -1140,8 +1298,16 @@ impl D {
         D(id)
     }
 }
+/// countdown to a panicking `D::clone`: -1 = disarmed; k >= 0 = the (k+1)-th clone from now panics (once)
+static PANIC_IN: AtomicIsize = AtomicIsize::new(-1);
+
 impl Clone for D {
     fn clone(&self) -> D {
+        if PANIC_IN.load(Ordering::SeqCst) >= 0 && PANIC_IN.fetch_sub(1, Ordering::SeqCst) == 0 {
+            // `resume_unwind` starts an ordinary unwind without going through the panic hook (no stderr noise);
+            // the payload is zero-sized, so that no allocation of the harness is counted as the code's
+            std::panic::resume_unwind(Box::new(()));
+        }
         D::new(self.0)
     }
 }
@@ -1164,6 +1330,13 @@ impl Dom for SliceDom {
     type A = Arc<[D]>;
     const NAME: &'static str = "slice";
     const HAS_EQ: bool = true;
+    const ELEM: usize = std::mem::size_of::<D>();
+    fn arm_panic(k: usize) {
+        PANIC_IN.store(k as isize, Ordering::SeqCst);
+    }
+    fn disarm_panic() -> bool {
+        PANIC_IN.swap(-1, Ordering::SeqCst) >= 0
+    }
     fn c_bytes(c: &DCow) -> Vec<u8> {
         c.iter().map(|d| d.0).collect()
     }
@@ -1272,6 +1445,8 @@ fn c_borrowed(case: &mut Case<SliceDom>, s: &'static [D], route: usize) -> usize
         return 0;
     }
     let c = alloc::track(|| match route {
+        // `Default`: `from_borrowed(<&[D]>::default())`
+        _ if s.is_empty() && route == 2 => DCow::default(),
         0 => DCow::from_borrowed(s),
         1 => DCow::const_slice(s),
         _ => DCow::from(s),
@@ -1499,15 +1674,72 @@ fn case_slice(out: &mut Out, r: &mut Rng, which: Which, st: &CStatics) {
     let d0 = LIVE_D.load(Ordering::SeqCst);
     let mut case: Case<SliceDom> = Case::new(out, r.fork(99));
     match which {
+        Which::Corpus(8) => {
+            // a failed `into_owned` of a Shared slice gives back exactly one reference: two values and the
+            // caller share the block, the copy panics at its second element
+            let a = case.arc(&[1, 2, 3]);
+            let h0 = case.shared(a, 0);
+            let h1 = case.clone(h0);
+            case.into_owned_unwind(h0, 1);
+            case.deref(h1);
+            let h2 = case.clone(h1);
+            case.into_owned_unwind(h2, 0);
+            case.into_owned(h1);
+        }
+        Which::Corpus(9) => {
+            // the value is the last owner: the failed `into_owned` frees the block (once)
+            let a = case.arc(&[4, 5]);
+            let h0 = case.shared(a, 1);
+            case.droparc(a);
+            case.into_owned_unwind(h0, 1);
+        }
+        Which::Corpus(10) => {
+            // failed clones / conversions of Owned and Borrowed values: the partial copy and its elements are
+            // released, the source stays usable
+            let h = c_owned(&mut case, &[1, 2, 3, 4], Shape::Extra(3), 0);
+            case.clone_unwind(h, 2);
+            case.clone_unwind(h, 0);
+            let c = case.clone(h);
+            case.into_owned_unwind(h, 0); // Owned: no Clone runs, returns normally
+            case.into_owned_unwind(c, 3);
+            let b = c_borrowed(&mut case, &SD2, 0);
+            case.clone_unwind(b, 0); // Borrowed: the words are copied
+            case.into_owned_unwind(b, 1);
+        }
         Which::Corpus(_) => {
             let h = c_owned(&mut case, &[1, 2, 3], Shape::Extra(4), 0);
             case.clone(h);
             case.into_owned(h);
         }
-        Which::Random => random_body(&mut case, r, |c, r| c_create(c, r, st), |_, _| false),
+        Which::Random => random_body(
+            &mut case,
+            r,
+            |c, r| c_create(c, r, st),
+            |c, r| {
+                // a panicking element `Clone` inside clone / into_owned, caught by the caller
+                if !r.chance(1, 6) {
+                    return false;
+                }
+                let h = match c.pick(r, true) {
+                    Some(h) => h,
+                    None => return false,
+                };
+                let len = bytes_of(c.vals[h].as_ref().unwrap()).len();
+                let k = r.below(len.max(1));
+                if r.chance(1, 2) {
+                    c.clone_unwind(h, k);
+                } else {
+                    c.into_owned_unwind(h, k);
+                }
+                true
+            },
+        ),
     }
     case.finish(r);
     c_end(&mut case, d0);
+    if SliceDom::disarm_panic() {
+        case.out.oracle_fail("harness", "the armed D::clone panic was left armed at the end of a case");
+    }
 }
 
 // ---------------------------------------------------------------------------------------------
@@ -1545,10 +1777,20 @@ fn stress_weak_upgrade(out: &mut Out, iterations: usize) {
             for _ in 0..(it % 7) * 40 {
                 std::hint::spin_loop();
             }
-            let owned: Vec<D> = cow.into_owned();
-            stop.store(true, Ordering::Release);
-            bad_owned = owned.len() != N || !owned.iter().enumerate().all(|(i, d)| d.0 == i as u8);
-            drop(owned);
+            // two iterations out of three convert the value, the third one clones and drops it (the last strong
+            // reference goes away in `drop_from_parts` while the other thread upgrades its Weak)
+            if it % 3 == 2 {
+                let c2 = cow.clone();
+                drop(cow);
+                bad_owned = c2.len() != N || c2[N - 1].0 != (N - 1) as u8;
+                drop(c2);
+                stop.store(true, Ordering::Release);
+            } else {
+                let owned: Vec<D> = cow.into_owned();
+                stop.store(true, Ordering::Release);
+                bad_owned = owned.len() != N || !owned.iter().enumerate().all(|(i, d)| d.0 == i as u8);
+                drop(owned);
+            }
         });
         drop(weak);
         upgrades_total += upgrades.load(Ordering::Relaxed);
@@ -1576,10 +1818,156 @@ fn stress_weak_upgrade(out: &mut Out, iterations: usize) {
     }
 }
 
+/// `Cow<[T]>` must NOT be `Send` / `Sync` when `T` is not (cow.rs `unsafe impl<T: Cowable + Send/Sync + ?Sized>`):
+/// a compile-time check.  `NotAuto::<X>::check` is ambiguous — the harness stops compiling — as soon as the
+/// probed type implements the trait `X` stands for (the `static_assertions::assert_not_impl_any` construction).
+#[allow(dead_code)]
+mod not_auto {
+    use metrics::verif_cow::Cow as MCow;
+    use std::rc::Rc;
+    pub trait AmbiguousIfSend<A> {
+        fn check() {}
+    }
+    impl<T: ?Sized> AmbiguousIfSend<()> for T {}
+    impl<T: ?Sized + Send> AmbiguousIfSend<u8> for T {}
+    pub trait AmbiguousIfSync<A> {
+        fn check() {}
+    }
+    impl<T: ?Sized> AmbiguousIfSync<()> for T {}
+    impl<T: ?Sized + Sync> AmbiguousIfSync<u8> for T {}
+    /// `Rc<u8>` is neither `Send` nor `Sync`; `Cell<u8>` is `Send` but not `Sync`
+    pub fn assert_bounds() {
+        let _ = <MCow<'static, [Rc<u8>]> as AmbiguousIfSend<_>>::check;
+        let _ = <MCow<'static, [Rc<u8>]> as AmbiguousIfSync<_>>::check;
+        let _ = <MCow<'static, [std::cell::Cell<u8>]> as AmbiguousIfSync<_>>::check;
+        // and positively
+        fn is_send_sync<T: Send + Sync>() {}
+        is_send_sync::<MCow<'static, str>>();
+        is_send_sync::<MCow<'static, [metrics::Label]>>();
+        fn is_send<T: Send>() {}
+        is_send::<MCow<'static, [std::cell::Cell<u8>]>>();
+    }
+}
+
+// ---------------------------------------------------------------------------------------------
+// stream E: values that share ONE `Arc<str>` and ONE `Arc<[D]>` are cloned, read, converted and dropped by
+// several threads at once (real threads, no schedule control).  The oracle does not depend on the interleaving:
+// whatever it was, every reference taken was given back (strong counts back to 1), every element copy was
+// destroyed (LIVE_D back), every read saw the content, and the allocator saw no double / foreign free.
+fn stress_shared_threads(out: &mut Out, rounds: usize, seed: u64) {
+    const THREADS: usize = 4;
+    let before = LIVE_D.load(Ordering::SeqCst);
+    let text = "shared-across-threads-\u{df}\u{65e5}";
+    let sa: Arc<str> = Arc::from(text);
+    let da: Arc<[D]> = (0..37u8).map(D::new).collect();
+    let weak = Arc::downgrade(&da);
+    let bad = AtomicUsize::new(0);
+    for round in 0..rounds {
+        // each thread starts from its own value made from the caller's Arcs and sends half of its values on
+        let s0: Vec<SharedString> = (0..THREADS).map(|i| if i % 2 == 0 { SharedString::from_shared(Arc::clone(&sa)) } else { SharedString::from(Arc::clone(&sa)) }).collect();
+        let d0: Vec<DCow> = (0..THREADS).map(|_| DCow::from_shared(Arc::clone(&da))).collect();
+        let (tx, rx) = std::sync::mpsc::channel::<(SharedString, DCow)>();
+        let barrier = std::sync::Barrier::new(THREADS + 1);
+        std::thread::scope(|sc| {
+            for (t, (s, d)) in s0.into_iter().zip(d0.into_iter()).enumerate() {
+                let tx = tx.clone();
+                let (bad, barrier, weak) = (&bad, &barrier, &weak);
+                let mut r = Rng::new(seed ^ ((round * THREADS + t) as u64).wrapping_mul(0x9E37_79B9));
+                sc.spawn(move || {
+                    barrier.wait();
+                    let mut ss = vec![s];
+                    let mut ds = vec![d];
+                    for _ in 0..60 {
+                        match r.below(7) {
+                            0 | 1 => {
+                                let c = ss[r.below(ss.len())].clone();
+                                ss.push(c);
+                                let c = ds[r.below(ds.len())].clone();
+                                ds.push(c);
+                            }
+                            2 if ss.len() > 1 => {
+                                drop(ss.swap_remove(r.below(ss.len())));
+                                drop(ds.swap_remove(r.below(ds.len())));
+                            }
+                            3 if ss.len() > 1 => {
+                                let o: String = ss.swap_remove(r.below(ss.len())).into_owned();
+                                let v: Vec<D> = ds.swap_remove(r.below(ds.len())).into_owned();
+                                if o != text || v.len() != 37 || v[36].0 != 36 {
+                                    bad.fetch_add(1, Ordering::SeqCst);
+                                }
+                            }
+                            4 if ss.len() > 1 => {
+                                // sent to and dropped on another thread
+                                let _ = tx.send((ss.swap_remove(r.below(ss.len())), ds.swap_remove(r.below(ds.len()))));
+                            }
+                            5 => {
+                                // a Weak upgraded while other threads drop / convert their values
+                                if let Some(strong) = weak.upgrade() {
+                                    if strong.len() != 37 || strong[5].0 != 5 {
+                                        bad.fetch_add(1, Ordering::SeqCst);
+                                    }
+                                }
+                            }
+                            _ => {
+                                let s = &ss[r.below(ss.len())];
+                                let d = &ds[r.below(ds.len())];
+                                if &**s != text || d.len() != 37 || d[7].0 != 7 {
+                                    bad.fetch_add(1, Ordering::SeqCst);
+                                }
+                            }
+                        }
+                    }
+                });
+            }
+            drop(tx);
+            barrier.wait();
+            // the main thread drops what the workers send it, while they are still running
+            for (s, d) in rx.iter() {
+                if &*s != text || d.len() != 37 {
+                    bad.fetch_add(1, Ordering::SeqCst);
+                }
+                drop(s);
+                drop(d);
+            }
+        });
+        let (ssc, dsc) = (Arc::strong_count(&sa), Arc::strong_count(&da));
+        if ssc != 1 || dsc != 1 {
+            out.oracle_fail(
+                "Arc reference not given back",
+                &format!("stream E round {}: {} threads cloned / dropped / converted / sent values sharing one Arc<str> and one Arc<[D]>; after all of them were dropped the strong counts are {} and {} (expected 1 and 1)", round, THREADS, ssc, dsc),
+            );
+            // a wrong count makes the final drops unsafe
+            std::mem::forget(sa);
+            std::mem::forget(da);
+            return;
+        }
+    }
+    if bad.load(Ordering::SeqCst) != 0 {
+        out.oracle_fail("content changed", &format!("stream E: {} reads of shared values on worker threads saw other content", bad.load(Ordering::SeqCst)));
+    }
+    drop(weak);
+    drop(da);
+    let after = LIVE_D.load(Ordering::SeqCst);
+    if after != before {
+        out.oracle_fail("element destructor count", &format!("stream E: live element count changed by {} over the whole stream", after - before));
+        LIVE_D.store(before, Ordering::SeqCst);
+    }
+    for f in alloc::take_faults() {
+        out.oracle_fail(FAULT, &f);
+    }
+    out.count(&format!("shared-threads stress rounds={}", rounds));
+    out.nontrivial();
+}
+
 pub fn run(cfg: &Cfg, out: &mut Out) {
+    not_auto::assert_bounds();
     alloc::install();
     out.case("stream D: into_owned racing Weak::upgrade (stress)");
     stress_weak_upgrade(out, if cfg.thorough { 3000 } else { 400 });
+    out.case("stream E: shared values cloned / converted / dropped / sent by several threads (stress)");
+    alloc::start();
+    stress_shared_threads(out, if cfg.thorough { 400 } else { 60 }, cfg.seed);
+    alloc::stop();
     let root = Rng::new(cfg.seed);
     let mut sr = root.fork(0xC14);
     let bst = b_statics(&mut sr);
@@ -1612,10 +2000,10 @@ pub fn run(cfg: &Cfg, out: &mut Out) {
     };
 
     // corpus
-    for k in 1..=7usize {
+    for k in 1..=10usize {
         let stream = match k {
             5 => 1,
-            7 => 2,
+            7..=10 => 2,
             _ => 0,
         };
         let mut r = root.fork(1_000_000 + k as u64);
